@@ -52,6 +52,30 @@ namespace sim
 		expires_after(expiry_time);
 	}
 
+	high_resolution_timer::high_resolution_timer(high_resolution_timer&& t) noexcept
+		: m_expiration_time(t.m_expiration_time)
+		, m_handler(std::move(t.m_handler))
+		, m_io_service(t.m_io_service)
+		, m_expired(t.m_expired)
+	{
+		// an armed timer is in the simulation's timer queue, by address
+		if (!m_expired) m_io_service->replace_timer(&t, this);
+		t.m_expired = true;
+	}
+
+	high_resolution_timer& high_resolution_timer::operator=(high_resolution_timer&& t) noexcept
+	{
+		if (&t == this) return *this;
+		cancel();
+		m_expiration_time = t.m_expiration_time;
+		m_handler = std::move(t.m_handler);
+		m_io_service = t.m_io_service;
+		m_expired = t.m_expired;
+		if (!m_expired) m_io_service->replace_timer(&t, this);
+		t.m_expired = true;
+		return *this;
+	}
+
 	high_resolution_timer::~high_resolution_timer()
 	{
 		cancel();
